@@ -218,6 +218,24 @@ Definition is_err (v : aval) : bool :=
 Definition out_is_err (o : outcome) : bool :=
   match o with ORet v => is_err v | _ => false end.
 
+Definition outcome_eqb (a b : outcome) : bool :=
+  match a, b with
+  | ONormal x, ONormal y | OBreak x, OBreak y | OContinue x, OContinue y => state_eqb x y
+  | OGoto k x, OGoto l y => String.eqb k l && state_eqb x y
+  | ORet x, ORet y => aval_eqb x y
+  | ORetVoid, ORetVoid | OFall, OFall => true
+  | OBad x, OBad y => String.eqb x y
+  | _, _ => false
+  end.
+
+Fixpoint omem (o : outcome) (l : list outcome) : bool :=
+  match l with [] => false | h :: t => outcome_eqb o h || omem o t end.
+
+(* identical outcomes are merged after every statement: the interpretation follows abstract states,
+   not paths *)
+Fixpoint odedup (l : list outcome) : list outcome :=
+  match l with [] => [] | h :: t => if omem h t then odedup t else h :: odedup t end.
+
 (* join of two values of a conditional expression whose condition is not determined *)
 Definition join (a b : aval) : aval :=
   if aval_eqb a b then a else if is_err a && is_err b then VErr else VAny.
@@ -290,8 +308,9 @@ Section Sem.
         match ceval c st with
         | [] => VAny
         | (b0, s0) :: rest =>
-            fold_left (fun acc bs => join acc (if fst bs then eval a (snd bs) else eval b (snd bs)))
-                      rest (if b0 then eval a s0 else eval b s0)
+            fold_left (fun (acc : aval) (bs : bool * state) =>
+                         join acc (if fst bs then eval a (snd bs) else eval b (snd bs)))
+                      rest (if (b0 : bool) then eval a s0 else eval b s0)
         end
     end
   with ceval (c : cond) (st : state) {struct c} : list (bool * state) :=
@@ -312,9 +331,9 @@ Section Sem.
         | None => [(true, mkState (st_vars st) (Some true)); (false, mkState (st_vars st) (Some false))]
         end
     | CAtom _ => [(true, st); (false, st)]
-    | CAnd a b => flat_map (fun bs => if fst bs then ceval b (snd bs) else [(false, snd bs)]) (ceval a st)
-    | COr a b => flat_map (fun bs => if fst bs then [(true, snd bs)] else ceval b (snd bs)) (ceval a st)
-    | CNot a => map (fun bs => (negb (fst bs), snd bs)) (ceval a st)
+    | CAnd a b => flat_map (fun bs : bool * state => if fst bs then ceval b (snd bs) else [(false, snd bs)]) (ceval a st)
+    | COr a b => flat_map (fun bs : bool * state => if fst bs then [(true, snd bs)] else ceval b (snd bs)) (ceval a st)
+    | CNot a => map (fun bs : bool * state => (negb (fst bs), snd bs)) (ceval a st)
     end.
 
   (* MPI_Allreduce(MIN) of a status: if mine is an error the minimum over all ranks is an error *)
@@ -384,44 +403,51 @@ Section Sem.
     | _ => None
     end.
 
-  Fixpoint exec (s : stmt) (st : state) {struct s} : list outcome :=
-    match s with
-    | SSkip => [ONormal st]
-    | SAssign v e => [ONormal (setv v (eval e st) st)]
-    | SHavoc v => [ONormal (setv v VAny st)]
-    | SAllMin a b => [ONormal (setv b (allmin (getv a st)) st)]
-    | SBcast0 v => match st_root st with
-                   | Some true => [ONormal st]           (* the root keeps its own value *)
-                   | _ => [ONormal (setv v VAny st)]
-                   end
-    | SIf c a b => flat_map (fun bs => if fst bs then exec a (snd bs) else exec b (snd bs)) (ceval c st)
-    | SSeq a b =>
-        flat_map (fun o => match o with
-                           | ONormal s1 => exec b s1
-                           | OGoto l s1 => match from_label l b with
-                                           | Some b' => exec_from b' s1 b
-                                           | None => [o]
-                                           end
-                           | other => [other]
-                           end) (exec a st)
-    | SLoop b i => loop_exec (exec b) (exec i) st
-    | SRet e => [ORet (eval e st)]
-    | SRetVoid => [ORetVoid]
-    | SBreak => [OBreak st]
-    | SContinue => [OContinue st]
-    | SLabel _ => [ONormal st]
-    | SGoto l => [OGoto l st]
-    | SDiscard _ => [ONormal st]
-    | SUnrec why => [OBad why]
-    end
-  (* a forward goto inside a sequence: the target suffix is not a subterm, so it is executed by a
-     copy of the interpreter that is structurally recursive on the ORIGINAL statement (fuel);
-     nested gotos from there fail closed *)
-  with exec_from (s' : stmt) (st : state) (orig : stmt) {struct orig} : list outcome :=
-    [OBad "goto inside a sequence"].
+  (* [fuel] bounds the nesting depth of the interpretation (a forward `goto` continues with the
+     suffix of the enclosing sequence after the label, which is not a subterm); exhaustion fails
+     closed *)
+  Fixpoint exec (fuel : nat) (s : stmt) (st : state) {struct fuel} : list outcome :=
+    match fuel with
+    | O => [OBad "exec: fuel"]
+    | S f =>
+      odedup
+      match s with
+      | SSkip => [ONormal st]
+      | SAssign v e => [ONormal (setv v (eval e st) st)]
+      | SHavoc v => [ONormal (setv v VAny st)]
+      | SAllMin a b => [ONormal (setv b (allmin (getv a st)) st)]
+      | SBcast0 v => match st_root st with
+                     | Some true => [ONormal st]           (* the root keeps its own value *)
+                     | _ => [ONormal (setv v VAny st)]
+                     end
+      | SIf c a b => flat_map (fun bs : bool * state => if fst bs then exec f a (snd bs) else exec f b (snd bs)) (ceval c st)
+      | SSeq a b =>
+          flat_map (fun o => match o with
+                             | ONormal s1 => exec f b s1
+                             | OGoto l s1 => match from_label l b with
+                                             | Some b' => exec f b' s1
+                                             | None => [o]
+                                             end
+                             | other => [other]
+                             end) (exec f a st)
+      | SLoop b i => loop_exec (exec f b) (exec f i) st
+      | SRet e => [ORet (eval e st)]
+      | SRetVoid => [ORetVoid]
+      | SBreak => [OBreak st]
+      | SContinue => [OContinue st]
+      | SLabel _ => [ONormal st]
+      | SGoto l => [OGoto l st]
+      | SDiscard _ => [ONormal st]
+      | SUnrec why => [OBad why]
+      end
+    end.
+
+  Definition EXECFUEL : nat := 3000.
+  Definition ex (s : stmt) (st : state) : list outcome := exec EXECFUEL s st.
 
   (* incoming outcome -> outcomes at function exit *)
   Fixpoint exec_frames (fs : list frame) (o : outcome) : list outcome :=
+    odedup
     match fs with
     | [] => match o with
             | ONormal _ => [OFall]
@@ -431,9 +457,9 @@ Section Sem.
             end
     | FSeq s :: k =>
         match o with
-        | ONormal st => flat_map (exec_frames k) (exec s st)
+        | ONormal st => flat_map (exec_frames k) (ex s st)
         | OGoto l st => match from_label l s with
-                        | Some s' => flat_map (exec_frames k) (exec s' st)
+                        | Some s' => flat_map (exec_frames k) (ex s' st)
                         | None => exec_frames k o
                         end
         | OBreak _ | OContinue _ => exec_frames k o
@@ -444,9 +470,9 @@ Section Sem.
         | ONormal st | OContinue st =>
             (* the current iteration is finished: increment, then any number of further iterations *)
             flat_map (fun oi => match oi with
-                                | ONormal s1 => flat_map (exec_frames k) (loop_exec (exec b) (exec i) s1)
+                                | ONormal s1 => flat_map (exec_frames k) (loop_exec (ex b) (ex i) s1)
                                 | _ => [OBad "loop increment"]
-                                end) (exec i st)
+                                end) (ex i st)
         | OBreak st => exec_frames k (ONormal st)
         | OGoto _ _ => exec_frames k o
         | r => [r]
@@ -460,14 +486,14 @@ Section Sem.
     match facts with
     | [] => sts
     | (c, b) :: t =>
-        assume t (flat_map (fun st => flat_map (fun bs => if Bool.eqb (fst bs) b then [snd bs] else [])
+        assume t (flat_map (fun st => flat_map (fun bs : bool * state => if Bool.eqb (fst bs) b then [snd bs] else [])
                                                (ceval c st)) sts)
     end.
 
   (* every outcome of the function after the marked call returned [mark] *)
   Definition run (b : body) : list outcome :=
-    flat_map (fun st => exec_frames (b_frames b) (ONormal st))
-             (assume (b_facts b) [init_state (b_vars b)]).
+    odedup (flat_map (fun st => exec_frames (b_frames b) (ONormal st))
+                     (assume (b_facts b) [init_state (b_vars b)])).
 End Sem.
 
 (* the function containing the site returns an error whatever the (unknown) rest of the state *)
@@ -577,6 +603,57 @@ Definition predict (io links : list site) (stack : list string) (c : errclass) :
           else [PBad "unknown link site"]
       end
   end.
+
+(* the same, level by level (to name the level at which an error is lost) *)
+Fixpoint predict_levels (mapv : Z) (levels : list site) (cur : list pred) : list (string * list pred) :=
+  match levels with
+  | [] => []
+  | l :: up =>
+      let nxt := pdedup (flat_map (fun p => match p with
+                                            | PVal v => map pred_of (run v mapv (s_body l))
+                                            | other => [other]
+                                            end) cur) in
+      (s_id l, nxt) :: predict_levels mapv up nxt
+  end.
+
+Definition predict_all (io links : list site) (stack : list string) (c : errclass)
+  : list (string * list pred) :=
+  match stack with
+  | [] => [("", [PBad "empty stack"])]
+  | id0 :: ups =>
+      match find_site id0 io with
+      | None => [(id0, [PBad "unknown I/O site"])]
+      | Some s0 =>
+          let p0 := pdedup (map pred_of (run VFail (mpi2nc c) (s_body s0))) in
+          (id0, p0) ::
+          predict_levels (mpi2nc c)
+            (flat_map (fun id => match find_site id links with
+                                 | Some s => [s]
+                                 | None => [mkSite id "" 0 0 "" "" KLink false "unknown link site"
+                                                   (mkBody [] [] [FSeq (SUnrec "unknown link site")] false)]
+                                 end) ups) p0
+      end
+  end.
+
+(* decimal rendering, for the case files of the correspondence check *)
+Fixpoint pos_digits (fuel : nat) (n : Z) (acc : string) : string :=
+  match fuel with
+  | O => acc
+  | S f =>
+      let d := String (Ascii.ascii_of_nat (48 + Z.to_nat (n mod 10)%Z)) acc in
+      if (n <? 10)%Z then d else pos_digits f (n / 10)%Z d
+  end.
+Definition zstr (z : Z) : string :=
+  if (z <? 0)%Z then "-" ++ pos_digits 20 (- z)%Z "" else pos_digits 20 z "".
+Definition pred_tok (p : pred) : string :=
+  match p with
+  | PVal (VInt z) => "I" ++ zstr z
+  | PVal VErr => "E" | PVal VAny => "A" | PVal VFail => "F"
+  | PVoid => "V"
+  | PBad w => "B(" ++ w ++ ")"
+  end.
+Definition show_levels (l : list (string * list pred)) : string :=
+  String.concat "|" (map (fun x => fst x ++ "=" ++ String.concat "," (map pred_tok (snd x))) l).
 
 (* ------------------------------------------------------------------------------------------ *)
 (** * 6. Hand-written propagation table
